@@ -55,6 +55,11 @@ func driveMul(c *ctx) {
 	pts := []*secp256k1.Point{
 		secp256k1.NewIdentityPoint(), idRep(big.NewInt(5)), secp256k1.NewGeneratorPoint(), R1,
 		rep(R1, add(randBig(r, add(bigP, -1)), 1)), rep(secp256k1.NewGeneratorPoint(), add(bigP, -1)),
+		// points that share a coordinate with G: -G (same x), in two representatives; lambda*G and lambda^2*G (same y), and -lambda*G
+		secp256k1.NewIdentityPoint().Negate(secp256k1.NewGeneratorPoint()),
+		rep(secp256k1.NewIdentityPoint().Negate(secp256k1.NewGeneratorPoint()), big.NewInt(7)),
+		mulG(bigLambda), mulG(new(big.Int).Mod(new(big.Int).Mul(bigLambda, bigLambda), bigN)),
+		secp256k1.NewIdentityPoint().Negate(mulG(bigLambda)),
 	}
 	type mk struct {
 		kind string
